@@ -8,6 +8,8 @@ from .. import audiocommon as AC
 from .. import pipeline as P
 from ..ctx import stable_hash
 
+from ..ctx import scratch_dir  # noqa: E402
+
 ID = "C12"
 LEVEL = "exploration"
 TIERS = {"quick": {"shards": 16, "budget_s": 120, "runs": 100, "line_runs": 16, "stress_runs": 12, "systematic_pipelines": 2, "systematic_deviations": 1},
@@ -249,14 +251,21 @@ def stress(ctx, conf, tmpdir):
             continue
         data, _ = built
         expected = P.split_reference(data, case)
-        out = ST.run_real(case, data, rng)
+        twice = i % 4 == 1
+        out = ST.run_real(case, data, rng, twice=twice)
         ctx.count("stress_runs")
+        if twice:
+            ctx.count("stress_runs_with_two_pipelines_set_up_on_one_reader")
         ctx.case(stable_hash(["stress", data, repr(sorted(P.case_json(case).items()))]), bool(expected))
+        if out.get("raised"):
+            ctx.violation("worker-thread-raised:" + out["raised"][0][0], {"case": P.case_json(case), "mode": "real-time stress" + (", two pipelines set up on one reader, run one after the other" if twice else ""),
+                                                                           "exception": out["raised"][0][1]})
+            continue
         if out["inconclusive"]:
             ctx.count("inconclusive_runs")
             ctx.note("stress watchdog fired: " + out["inconclusive"])
             continue
-        w = {"case": P.case_json(case), "mode": "real-time stress"}
+        w = {"case": P.case_json(case), "mode": "real-time stress" + (", two pipelines set up on one reader, run one after the other" if twice else "")}
         if out["alive"]:
             ctx.violation("thread-never-terminates", dict(w, threads=out["alive"]))
             continue
@@ -272,7 +281,7 @@ def stress(ctx, conf, tmpdir):
 
 def run_shard(ctx):
     conf = TIERS[ctx.tier]
-    tmpdir = tempfile.mkdtemp(prefix="vf-c12-")
+    tmpdir = scratch_dir(ctx, "vf-c12-")
     try:
         rng = ctx.rng("runs")
         for i in range(conf["runs"]):
